@@ -6,6 +6,7 @@ package main
 import (
 	"context"
 	"fmt"
+	"math"
 	"regexp"
 	"sort"
 	"strconv"
@@ -17,18 +18,26 @@ import (
 	. "verifharness/common"
 )
 
+type CfgPipe struct {
+	Name  string `json:"n"`
+	From  string `json:"f,omitempty"`
+	Where string `json:"w,omitempty"`
+	Valid bool   `json:"v,omitempty"`
+}
+
 type Op struct {
-	Kind   string `json:"k"` // create | createx (Admin.Execute) | ensure | ensurerpc | delete | list | describe | restart
-	Name   string `json:"n,omitempty"`
-	From   string `json:"f,omitempty"`
-	Where  string `json:"w,omitempty"`
-	Valid  bool   `json:"v,omitempty"`
-	Limit  int64  `json:"l,omitempty"`
-	Offset int64  `json:"o,omitempty"`
+	Kind   string    `json:"k"` // create | createx (Admin.Execute) | ensure | ensurerpc | delete | list | describe | restart | restartcfg
+	Name   string    `json:"n,omitempty"`
+	From   string    `json:"f,omitempty"`
+	Where  string    `json:"w,omitempty"`
+	Valid  bool      `json:"v,omitempty"`
+	Limit  int64     `json:"l,omitempty"`
+	Offset int64     `json:"o,omitempty"`
+	Cfg    []CfgPipe `json:"cfg,omitempty"` // restartcfg: PipesConfig.EnsureAtStart of the next start
 }
 
 type Replay struct {
-	Kind string `json:"kind"` // hist | race
+	Kind string `json:"kind"` // hist | race | erace
 	Ops  []Op   `json:"ops,omitempty"`
 	K    int    `json:"racers,omitempty"`
 }
@@ -88,22 +97,51 @@ func genOps(r *Rng, n int) []Op {
 				op.Limit = int64(r.PickInt(0, 1, 2, 3, 5, 100))
 				op.Offset = int64(r.PickInt(0, 0, 1, 2, 3, 7))
 			}
+			if r.Chance(1, 6) {
+				// the ends of the number ranges: "no limit" idioms, the int32 default, sums that leave int64
+				big := []int64{math.MaxInt64, math.MaxInt64 - 1, math.MaxInt64 - 7, math.MaxInt32, math.MaxInt32 + 1, 1 << 32, 1 << 62}
+				op.Limit = big[r.Intn(len(big))]
+				if r.Chance(1, 4) {
+					op.Offset = big[r.Intn(len(big))]
+				} else {
+					op.Offset = int64(r.PickInt(0, 1, 1, 2, 3, 7))
+				}
+			}
 			ops = append(ops, op)
 		case x < 95:
 			ops = append(ops, Op{Kind: "describe", Name: name})
 		default:
-			ops = append(ops, Op{Kind: "restart"})
+			if r.Chance(1, 2) {
+				ops = append(ops, Op{Kind: "restart"})
+				break
+			}
+			// a start with configured pipes: some as stored, some with other conditions, some new, rarely one that does not compile
+			op := Op{Kind: "restartcfg"}
+			for _, j := range r.Perm(nn)[:r.Range(1, nn)] {
+				cp := CfgPipe{Name: names[j], Valid: true, From: r.PickStr(validFrom...), Where: r.PickStr(validWhere...)}
+				if r.Chance(1, 10) {
+					cp.Valid = false
+					if r.Chance(1, 2) {
+						cp.From = r.PickStr(invalidCond...)
+					} else {
+						cp.Where = r.PickStr(invalidCond...)
+					}
+				}
+				op.Cfg = append(op.Cfg, cp)
+			}
+			ops = append(ops, op)
 		}
 	}
 	return ops
 }
 
 type hist struct {
-	coqOps  []string
-	coqObs  []string
-	viol    *Violation
-	maxList int
-	lists   int
+	coqOps    []string
+	coqObs    []string
+	viol      *Violation
+	maxList   int
+	lists     int
+	cfgStarts int
 }
 
 func (h *hist) fail(class, detail string) {
@@ -240,12 +278,12 @@ func runHist(ops []Op) (*hist, error) {
 				all = append(all, n)
 			}
 			sort.Strings(all)
-			lo := int(op.Offset)
-			if lo > len(all) {
-				lo = len(all)
+			lo := len(all)
+			if op.Offset < int64(len(all)) {
+				lo = int(op.Offset)
 			}
 			hi := len(all)
-			if op.Limit > 0 && lo+int(op.Limit) < hi {
+			if op.Limit > 0 && op.Limit < int64(hi-lo) {
 				hi = lo + int(op.Limit)
 			}
 			want := all[lo:hi]
@@ -291,6 +329,45 @@ func runHist(ops []Op) (*hist, error) {
 			}
 			h.coqOps = append(h.coqOps, "ORestart")
 			h.coqObs = append(h.coqObs, "RUnit")
+		case "restartcfg":
+			srv.Stop()
+			var eas []pipe.Pipe
+			var gcfg []string
+			for _, cp := range op.Cfg {
+				eas = append(eas, pipe.Pipe{Name: cp.Name, TagsCond: cp.From, FltCond: cp.Where})
+				gcfg = append(gcfg, GPair(gPipe(cp.Name, cp.From, cp.Where), GBool(cp.Valid)))
+			}
+			// reference: the entries in order; one that does not compile ends the start after a stored pipe of that
+			// name (necessarily with other conditions) was deleted
+			wantOk := true
+			for _, cp := range op.Cfg {
+				if !cp.Valid {
+					delete(ref, cp.Name)
+					wantOk = false
+					break
+				}
+				ref[cp.Name] = [2]string{cp.From, cp.Where}
+			}
+			var e error
+			srv, e = StartServer(ServerOpts{Dir: dir, EnsureAtStart: eas})
+			ok := e == nil
+			h.coqOps = append(h.coqOps, GApp("ORestartCfg", GList(gcfg)))
+			h.coqObs = append(h.coqObs, GApp("RBool", GBool(ok)))
+			if ok != wantOk {
+				if ok {
+					h.fail("start-config-invalid-accepted", fmt.Sprintf("%+v", op.Cfg))
+				} else {
+					h.fail("start-config-refused", fmt.Sprintf("%+v: %v", op.Cfg, e))
+				}
+			}
+			if !ok {
+				srv, err = StartServer(ServerOpts{Dir: dir})
+				if err != nil {
+					h.fail("restart-failed", err.Error())
+					return h, nil
+				}
+			}
+			h.cfgStarts++
 		}
 	}
 	return h, nil
@@ -335,6 +412,55 @@ func runRace(k int) (int, bool, error) {
 	return succ, e == nil, nil
 }
 
+// corpus: fixed histories that run first on every check: the ends of the OFFSET/LIMIT number ranges over a
+// listing of several pipes, and starts with configured pipes (kept, replaced, added, one that does not compile)
+func corpus() []Replay {
+	mk := func(n string) Op { return Op{Kind: "create", Name: n, Valid: true, From: "a=b"} }
+	list := func(l, o int64) Op { return Op{Kind: "list", Limit: l, Offset: o} }
+	h1 := []Op{mk("pb"), mk("Pz"), mk("pa"), mk("zz"), list(0, 0),
+		list(math.MaxInt64, 1), list(math.MaxInt64, 0), list(math.MaxInt64-1, 2), list(math.MaxInt64, math.MaxInt64),
+		list(math.MaxInt32, math.MaxInt64), list(math.MaxInt32+1, 1), list(1<<62, 1<<62), list(2, math.MaxInt64-1), list(3, 1), list(1, 3), list(1, 4), list(1, 5)}
+	h2 := []Op{mk("pb"), mk("pa"), mk("Pz"),
+		{Kind: "restartcfg", Cfg: []CfgPipe{{Name: "pa", From: "x=y", Valid: true}, {Name: "pb", From: "a=b", Valid: true}, {Name: "zz", Where: "msg contains \"err\"", Valid: true}}},
+		list(0, 0), {Kind: "describe", Name: "pa"}, {Kind: "describe", Name: "pb"}, {Kind: "describe", Name: "zz"}, {Kind: "describe", Name: "Pz"},
+		{Kind: "restartcfg", Cfg: []CfgPipe{{Name: "pa", From: "x=y", Valid: true}, {Name: "pb", From: "a=b", Valid: true}, {Name: "zz", Where: "msg contains \"err\"", Valid: true}}},
+		list(0, 0), {Kind: "describe", Name: "pa"},
+		{Kind: "restartcfg", Cfg: []CfgPipe{{Name: "Pz", From: "q=r", Valid: true}, {Name: "pb", From: "((", Valid: false}, {Name: "pa", From: "", Valid: true}}},
+		list(0, 0), {Kind: "describe", Name: "Pz"}, {Kind: "describe", Name: "pb"}, {Kind: "describe", Name: "pa"},
+		{Kind: "ensure", Name: "pb", From: "a=b", Valid: true}, {Kind: "restart"}, list(0, 0)}
+	return []Replay{{Kind: "hist", Ops: h1}, {Kind: "hist", Ops: h2}, {Kind: "erace", K: 2}, {Kind: "erace", K: 3}, {Kind: "erace", K: 8}}
+}
+
+// runEnsureRace: k goroutines ensure the same new name with the same definition concurrently on the real service
+func runEnsureRace(k int) (int, bool, error) {
+	srv, err := StartServer(ServerOpts{NoRPC: true})
+	if err != nil {
+		return 0, false, err
+	}
+	defer srv.Stop()
+	var wg sync.WaitGroup
+	var mu sync.Mutex
+	succ := 0
+	start := make(chan struct{})
+	for i := 0; i < k; i++ {
+		wg.Add(1)
+		go func() {
+			defer wg.Done()
+			<-start
+			pd, e := srv.Pipes.EnsurePipe(pipe.Pipe{Name: "eracer", TagsCond: "a=b", FltCond: "msg contains \"x\""})
+			if e == nil && pd.Name == "eracer" && pd.TagsCond == "a=b" {
+				mu.Lock()
+				succ++
+				mu.Unlock()
+			}
+		}()
+	}
+	close(start)
+	wg.Wait()
+	_, e := srv.Pipes.GetPipe("eracer")
+	return succ, e == nil, nil
+}
+
 func main() {
 	Main("C19", "C19K", func(c *Ctx) error {
 		if c.Replay != nil {
@@ -348,13 +474,17 @@ func main() {
 			return c.Finish(rule)
 		}
 		nh := c.N(60)
-		jobs := make([]Replay, 0, nh+8)
+		jobs := make([]Replay, 0, nh+24)
+		jobs = append(jobs, corpus()...)
 		for i := 0; i < nh; i++ {
 			r := c.Rng.Fork()
 			jobs = append(jobs, Replay{Kind: "hist", Ops: genOps(r, r.PickInt(6, 12, 25, 40))})
 		}
 		for i := 0; i < c.N(6); i++ {
 			jobs = append(jobs, Replay{Kind: "race", K: c.Rng.Range(2, 8)})
+		}
+		for i := 0; i < c.N(8); i++ {
+			jobs = append(jobs, Replay{Kind: "erace", K: c.Rng.Range(2, 12)})
 		}
 		res := make([]*Case, len(jobs))
 		errs := make([]error, len(jobs))
@@ -371,7 +501,7 @@ func main() {
 	})
 }
 
-const rule = "random histories of create/ensure/delete/list/describe/restart over 2-6 names from a pool with mixed-case and punctuated identifiers (plus races of 2-8 concurrent creates of one name); a case is non-trivial iff some listing was taken with >= 2 pipes present, or it is a race; distinct by the hash of the operation list"
+const rule = "a fixed corpus (OFFSET/LIMIT at the ends of the int64/int32 ranges over 4 pipes; starts with configured pipes: kept, replaced, added, one that does not compile; ensure races of 2, 3, 8) then random histories of create/ensure/delete/list/describe/restart/restart-with-configured-pipes over 2-6 names from a pool with mixed-case and punctuated identifiers (plus races of 2-8 concurrent creates of one name and of 2-12 concurrent ensures of one name with one definition); a case is non-trivial iff some listing was taken with >= 2 pipes present, or it is a race; distinct by the hash of the operation list"
 
 func runCase(c *Ctx, rp Replay) error {
 	cs, err := mkCase(rp)
@@ -395,7 +525,7 @@ func mkCase(rp Replay) (*Case, error) {
 			NonTrivial: h.maxList >= 2,
 			Oracle:     h.viol,
 			Stream:     "hist",
-			Tags:       []string{fmt.Sprintf("maxlisted:%d", h.maxList)},
+			Tags:       []string{fmt.Sprintf("maxlisted:%d", h.maxList), fmt.Sprintf("cfgstarts:%d", h.cfgStarts)},
 		}, nil
 	case "race":
 		succ, present, err := runRace(rp.K)
@@ -413,6 +543,23 @@ func mkCase(rp Replay) (*Case, error) {
 			Key:        fmt.Sprintf("race-%d-%p", rp.K, &rp),
 			Oracle:     v,
 			Stream:     "race",
+		}, nil
+	case "erace":
+		succ, present, err := runEnsureRace(rp.K)
+		if err != nil {
+			return nil, err
+		}
+		var v *Violation
+		if succ != rp.K || !present {
+			v = &Violation{Class: "ensure-race-same-definition-failed", Detail: fmt.Sprintf("%d concurrent ensure calls with one definition, %d succeeded, present=%v", rp.K, succ, present)}
+		}
+		return &Case{
+			Coq:        GApp("KERace", GNat(rp.K), GNat(succ), GBool(present)),
+			Replay:     rp,
+			NonTrivial: true,
+			Key:        fmt.Sprintf("erace-%d-%p", rp.K, &rp),
+			Oracle:     v,
+			Stream:     "erace",
 		}, nil
 	}
 	return nil, fmt.Errorf("unknown case kind %q", rp.Kind)
